@@ -70,7 +70,10 @@ _MORE = {
             "contract-based deductive verification (loop invariant, transitive-closure model) + bounded stand-in for the writers"),
     "C16": ("Frame condition 'modifies nothing reachable from the tracks' decided by a may-alias analysis of the real AST of the exporters, savers and 27 queries (35 obligations), "
             "third-party callees assumed read-only; plus deep-snapshot bounded check.", "static frame analysis of the real AST (may-alias) + bounded stand-in"),
-    "C17": ("BOUNDED STAND-IN ONLY: sampled column lists from a 28-word vocabulary of similar names, ndim None/3/4, node and edge maps.", "bounded stand-in (no obligation discharged)"),
+    "C17": ("_match_exact (functional spec), _match_fuzzy (step contract: never overwrites, each consumed column under exactly one new key), _map_remaining_to_self and the bodies of "
+            "infer_node_name_map / infer_edge_name_map proved: every column used by exactly one key, a column spelled like a required key or seg_id mapped to it. "
+            "Assumed: the step contract of the two display-name steps. Bounded: those two steps and an end-to-end cross-check with the real difflib on a vocabulary of similar/competing names.",
+            "contract-based deductive verification (loop invariants with ghost owner maps; callers checked against step contracts) + assumed contracts + bounded stand-in"),
     "C18": ("add_cand_edges proved for every number of frames/detections/gaps: three nested loop invariants give 'edge a->b iff b is in the frame right after a's and within the maximum distance' "
             "(KDTree query, sorted keys, frame->nodes mapping assumed as external contracts). Bounded: node construction, IoU and end-to-end cross-check on every placement of <=4 points in 4 frames and random label videos.",
             "contract-based deductive verification (nested loop invariants, uninterpreted distance predicate) + bounded stand-in"),
